@@ -329,7 +329,8 @@ GROWTH = {
     'C12': " A 5-field wide layer (every ordered selection for cut / cutout, movefield, int field names, Record access on short rows).",
     'C13': " Nested row slices against composed islice; biselect(missing=); list cells against tuple references; string containers.",
     'C14': " flags= sequences for capture / split / splitdown / sub / search; fields given by index; fromdicts(sample=1); int field names.",
-    'C15': " A byte-offset sweep of 136 KiB round trips puts every byte of a record on every buffer boundary.",
+    'C15': " FileStoreInt (counting abstraction) is proved inductive by Apalache for tables and histories of any length, FileStore "
+           "refines it (TLC). A byte-offset sweep of 136 KiB round trips puts every byte of a record on every buffer boundary.",
     'C16': " Default batch sizes on 2500 rows, % and {} in prefixes, the table without any row.",
     'C17': " DbLoadInt is proved inductive by Apalache for every number of rows and failure point, DbLoad refines it (TLC); "
            "1000-2100 row loads failing at batch boundaries, schema= with a namesake, permuted headers in a sequence of loads.",
